@@ -7,7 +7,7 @@ regenerated effect summary `Gen.summary`.
   generic (any summary, any code `impl`, any history length, any schedule):
     C06_history_independent   Frame ∧ NoEnvPartial ∧ Ordered → masked response after any history in any
                               configuration = masked response of a fresh process in any other configuration
-                              that resolves the schema name to the same text (calls outside the F36 class)
+                              that resolves the schema name to the same text (calls outside the C06N1 class)
     C06_lookup_order          PkgFirst → a schema shipped in the first (package) directory resolves to the same
                               text in every working directory
     C06_serialisable          NoAwait → every schedule of concurrently submitted calls equals the serial
@@ -17,9 +17,9 @@ regenerated effect summary `Gen.summary`.
     C06_frame, C06_noenv_partial, C06_ordered, C06_noawait, C06_pkg_first
   and their combination  C06_code_partial / C06_code_concurrent_partial.
 
-`_partial`: the generated summary contains one environment read that is not allowed — known finding F36
+`_partial`: the generated summary contains one environment read that is not allowed — known finding C06N1
 (default object repr of `ConstraintChain`, a memory address, reaches routing `value_hash` and the markdown
-projection).  The theorems hold for calls outside that class (`kf c = false`); `C06_F36_channel` shows that
+projection).  The theorems hold for calls outside that class (`kf c = false`); `C06_N1_channel` shows that
 inside the class the machine does produce different responses.
 -/
 import Octave.Model.Effects
@@ -287,7 +287,7 @@ end Generic
 
 /-- No reachable non-import-time function writes module/class state (benign list: `benignWrite`, `benignEscape`). -/
 theorem C06_frame : Frame Gen.summary := by decide
-/-- Environment reads ⊆ allowed list ∪ {F36 site}. -/
+/-- Environment reads ⊆ allowed list ∪ {C06N1 site}. -/
 theorem C06_noenv_partial : NoEnvPartial Gen.summary := by decide
 /-- No unordered set iteration reaches an output. -/
 theorem C06_ordered : Ordered Gen.summary := by decide
@@ -299,10 +299,12 @@ theorem C06_pkg_first : PkgFirst Gen.summary := by decide
 theorem C06_search_order : Gen.summary.searchOrder = ["package", "cwd", "cwd", "package"] := by decide
 /-- The only serialised field that receives a clock reading is `RoutingLog.to_dict`'s `timestamp`. -/
 theorem C06_timestamp_keys : Gen.timestampKeys = [("core/routing.py", "RoutingLog.to_dict", "timestamp")] := by decide
-/-- The known finding is still in the summary (when it is fixed this fact fails and the exemption must go). -/
-theorem C06_F36_listed : (Gen.summary.envReads.filter knownFindingEnv).length = 1 := by decide
+/-- The known-finding exemption covers at most one site (today exactly one; once C06N1 is fixed the list is
+empty, `NoEnv Gen.summary` becomes provable by `decide` and the `_partial` instance theorems below can be replaced
+by their full forms through `C06_history_independent_full`). -/
+theorem C06_N1_at_most_one : (Gen.summary.envReads.filter knownFindingEnv).length ≤ 1 := by decide
 
-/-- **C06 for the code as it is** (partial: calls outside the F36 class): any code whose effects are within
+/-- **C06 for the code as it is** (partial: calls outside the C06N1 class): any code whose effects are within
 the regenerated summary answers `call` identically (timestamps masked) after any history in any
 configuration and in a fresh process in any other configuration resolving the schema to the same text. -/
 theorem C06_code_partial {Args Text Data : Type} (kf : Call Args → Bool) (impl : Impl Args Text Data) (init : PState)
@@ -345,7 +347,7 @@ def leakyWrite : Summary := { clean with writes := [⟨"m.py", "f", "counter", "
 def leakyEnv : Summary := { clean with envReads := [⟨"m.py", "f", "environ", "os.environ", "tools", 1⟩] }
 def leakySet : Summary := { clean with setIters := [⟨"m.py", "f", "for-loop over set", "s", "tools", 1⟩] }
 def withAwait : Summary := { leakyWrite with asyncs := [⟨"m.py", "execute", "await asyncio.sleep(0)", "tools", 1⟩] }
-def f36 : Summary := { clean with envReads := [⟨"core/constraints.py", "<class ConstraintChain>", "identity", "default repr", "tools", 1⟩] }
+def n1 : Summary := { clean with envReads := [⟨"core/constraints.py", "<class ConstraintChain>", "identity", "default repr", "tools", 1⟩] }
 end Toy
 open Toy
 
@@ -383,14 +385,14 @@ example : responses (runSched withAwait noKf impl cfgA init [call 1, call 2] [0,
     ≠ responses (runSerial withAwait noKf impl cfgA init [call 1, call 2] [1, 0]) := by decide
 example : ¬ NoAwait withAwait := by decide
 
-/-- **F36 in the model**: with the identity read of `ConstraintChain` in the summary, a call inside the
+/-- **C06N1 in the model**: with the identity read of `ConstraintChain` in the summary, a call inside the
 finding's class gets different masked responses in two configurations (the negation of the property on the
 witness), while a call outside the class does not. -/
-theorem C06_F36_channel :
-    (lastResp (run f36 (fun c => c.args == 36) impl cfgA init [call 36])).map mask
-      ≠ (lastResp (run f36 (fun c => c.args == 36) impl cfgB init [call 36])).map mask
-    ∧ (lastResp (run f36 (fun c => c.args == 36) impl cfgA init [call 3])).map mask
-      = (lastResp (run f36 (fun c => c.args == 36) impl cfgB init [call 3])).map mask := by decide
-example : NoEnvPartial f36 ∧ ¬ NoEnv f36 := by decide
+theorem C06_N1_channel :
+    (lastResp (run n1 (fun c => c.args == 36) impl cfgA init [call 36])).map mask
+      ≠ (lastResp (run n1 (fun c => c.args == 36) impl cfgB init [call 36])).map mask
+    ∧ (lastResp (run n1 (fun c => c.args == 36) impl cfgA init [call 3])).map mask
+      = (lastResp (run n1 (fun c => c.args == 36) impl cfgB init [call 3])).map mask := by decide
+example : NoEnvPartial n1 ∧ ¬ NoEnv n1 := by decide
 
 end Octave.C06
